@@ -5,6 +5,7 @@ mod fam_lex;
 mod fam_pk;
 mod fam_sema;
 mod fam_semt;
+mod fam_semw;
 mod sema;
 mod fam_tree;
 mod fam_symtab;
@@ -26,6 +27,7 @@ fn main() {
         "tree" => fam_tree::run(rest),
         "sema" => fam_sema::run(rest),
         "semt" => fam_semt::run(rest),
+        "semw" => fam_semw::run(rest),
         f => {
             eprintln!("unknown family {f}");
             std::process::exit(2);
